@@ -1634,7 +1634,11 @@ def _empty(R, inputs):
 
 def _regenerate(inputs, big_inputs, log, native):
     R = Result()
+    import time as _t
+    t0 = _t.time()
+    R.timing = {}
     R.sites, R.casts, R.errors, R.raw = gather(log)
+    R.timing["generate+scrape"] = round(_t.time() - t0, 1); t0 = _t.time()
     R.generated_changed = write_if_changed(os.path.join(vf.COQ, "theories", "Scalar", "Generated.v"), emit_generated(R.sites, R.casts))
     sd = os.path.join(vf.COQ, "theories", "Scalar")
     srcs = [os.path.join(sd, f) for f in ("Expr.v", "ScalarSpec.v", "Normalize.v", "NormalizeProofs.v", "Generated.v")] + \
@@ -1660,6 +1664,7 @@ def _regenerate(inputs, big_inputs, log, native):
         write_props(R)
         return R
     R.inputs = inputs
+    R.timing["coq+ocaml build"] = round(_t.time() - t0, 1); t0 = _t.time()
     R.native, R.native_error, R.native_mismatches, R.native_evaluations = {}, None, [], 0
     if native:
         try:
@@ -1669,6 +1674,7 @@ def _regenerate(inputs, big_inputs, log, native):
                 R.native.update(native_c(R.sites, inputs, R.raw[("c", "scalar")]["w.c"]))
         except RuntimeError as e:
             R.native_error = str(e)
+    R.timing["native rustc/clang"] = round(_t.time() - t0, 1); t0 = _t.time()
     names = [(s, suf) for s in R.sites for suf, _ in s.coq]
     idx = {s.ident(suf): i for i, (s, suf) in enumerate(names)}           # order of all_conversions
     modelled = [k for k in R.casts if k.coq is not None]
@@ -1772,6 +1778,7 @@ def _regenerate(inputs, big_inputs, log, native):
                                     "probe": [NONE if v is None else v for v in probes[r]]}
     R.spec_mirror_ok = not mism
     R.spec_mirror_mismatches = mism[:5]
+    R.timing["model evaluation"] = round(_t.time() - t0, 1)
     write_props(R)
     return R
 
